@@ -8,6 +8,7 @@ def units(tier):
     q = tier == "quick"
     ns = [0, 1, 2, 3, 4, 5]
     W = 600 if q else 3000
+    PH = 3
     ents = [PathEntry("vp_main_fm_n%d_op%d" % (n, op), wall=W,
                       desc="FlatMap<int,int>: one %s with a symbolic key from an arbitrary valid %d-entry state (symbolic pairwise-distinct keys, symbolic values) vs. the insertion-ordered reference map: size, iteration order, at_index, lookup results" % (OPS[op], n),
                       bounds="state size %d" % n) for n in ns for op in range(6)]
@@ -16,7 +17,13 @@ def units(tier):
                                "std::vector / std::stable_partition are the real libstdc++ header code; allocation never fails (stable_partition's temporary buffer always obtained)"])
     pe = [PathEntry("vp_main_params_get", wall=W, desc="ParameterizedObject: absent/default, set, wrong-type read (default, not queried), exact read (value, queried), reset of query status; symbolic values"),
           PathEntry("vp_main_params_retype", wall=W, desc="two names, type change under one name: one entry each, first-insertion order, old type reads default, new type reads the value"),
-          PathEntry("vp_main_params_remove", wall=W, desc="removal keeps the rest; removing an absent name is a no-op")]
-    po = PathUnit("params", "harness/C10_flatmap.cpp", pe, defines=["STEPS=1", "VP_PATH"],
-                  assumptions=["names 'a','b', int/float values; three operation scenarios with symbolic values (not all histories)", "std::string / shared_ptr / type_info comparisons are the real header code; type_info objects of built-in types synthesised (name = mangled name)"])
-    return [fm, po]
+          PathEntry("vp_main_params_remove", wall=W, desc="removal keeps the rest; removing an absent name is a no-op"),
+          PathEntry("vp_main_params_hist", wall=W, max_paths=400000, desc="every history of %d actions (set int / set float / remove / get<int> / get<float> / hasParam / reset query status) over names a,b,c with symbolic values vs. a reference list: length, order, query flags, results after every step" % PH)]
+    po = PathUnit("params", "harness/C10_flatmap.cpp", pe, defines=["STEPS=1", "VP_PATH", "PH=%d" % PH],
+                  assumptions=["names 'a','b','c', int/float values; three fixed scenarios plus every history of %d actions, symbolic values" % PH, "std::string / shared_ptr / type_info comparisons are the real header code; type_info objects of built-in types synthesised (name = mangled name)"])
+    if q:
+        return [fm, po]
+    po4 = PathUnit("params_h4", "harness/C10_flatmap.cpp", [PathEntry("vp_main_params_hist", wall=W, max_paths=400000, max_steps=400000000,
+                   desc="every history of 4 actions (set int / set float / remove / get<int> / get<float> / hasParam / reset query status) over names a,b with symbolic values vs. a reference list")],
+                   defines=["STEPS=1", "VP_PATH", "PH=4", "PNAMES=2"], assumptions=["names 'a','b'; every history of 4 actions, symbolic values"])
+    return [fm, po, po4]
